@@ -160,6 +160,19 @@ def run_batch(ctx, n, length, with_model=True):
     calls = [["call", 0, {"u": u}] for u in ["u1", "u2", "u3", 3, 4, "user_7", "user_8", "zz"]]
     for t1, t2 in twins:
         hists.insert(0, [["new", 0, t1]] + calls[:3] + [["recompile", 0, t2]] + calls + [["recompile", 0, t2]] + calls[:2])
+    # endurance: one evaluator taken through hundreds of distinct texts (and back to earlier ones), asked after every step
+    nlong = 150 if n <= 300 else 5000
+    long_hist = [["new", 0, 'def t0 { splitters: u return "a" weighted 1, "b" weighted 1 }']]
+    seen_texts = []
+    for k in range(nlong):
+        if seen_texts and rng.random() < 0.2:
+            t = rng.choice(seen_texts)
+        else:
+            t = 'def t%d { salt: "s%d" splitters: u return "a" weighted %d, "b" weighted %d, "c%d" weighted 1 }' % (k % 5, k, 1 + k % 7, 1 + (k * 3) % 5, k)
+            seen_texts.append(t)
+        long_hist.append(["recompile", 0, t])
+        long_hist.append(["call", 0, {"u": "u%d" % (k % 9), "x": 1, "v": 0}])
+    hists.insert(0, long_hist)
     models = [None] * len(hists)
     if with_model and ctx.driver_ok:
         reqs = [{"op": "life", "ops": [[o[0], o[1], o[2] if o[0] != "call" else common.enc_env(o[2])] for o in h]} for h in hists]
